@@ -10,8 +10,8 @@
 (*   4 UrwidImage(image, s)                                                 *)
 (*                                                                         *)
 (*   [s |-> <<"<", "5", ...>>,  t |-> <<colsA, linesA, colsB, linesB>>,      *)
-(*    o |-> << <<styles, << <<entries, obs>>, ... >> >>, ... >>]             *)
-(* identical observations are grouped (styles / entries list who made it).  *)
+(*    u |-> <<obs, ...>>            the distinct observations                *)
+(*    x |-> <<<<i,i,i,i>>, <<...>>, <<...>>>>   x[style][entry] indexes u]   *)
 (*   obs, rejected:  <<exception class, snapshot unchanged>>                *)
 (*   obs, accepted:  <<"ok", snapshot unchanged, h_align, width, width@B,   *)
 (*                     v_align, height, height@B, alpha kind, alpha,        *)
@@ -30,8 +30,6 @@ Traces == JsonDeserialize(IOEnv.TRACE_FILE)
 VARIABLES tid, l, res
 vars == <<tid, l, res>>
 
-Range(q) == {q[i] : i \in DOMAIN q}
-
 Names == <<"result", "snapshot", "h_align", "width", "width@B", "v_align", "height",
            "height@B", "alpha-kind", "alpha", "method", "z_index", "mix", "compress",
            "extra-style-args">>
@@ -44,9 +42,10 @@ NatDigits(n) == IF n < 10 THEN <<DigitChar[n + 1]>>
 Exceeds(q, n) == LET d == NatDigits(n) IN
                  Len(q) > Len(d) \/ (Len(q) = Len(d) /\ q # d /\ LexLE(d, q))
 
-\* absent or zero = relative to the terminal: the terminal width, the terminal height - 2
-PadW(P, cols)  == IF P.w = "default" THEN ToString(cols) ELSE P.w
-PadH(P, lines) == IF P.ht = "default" THEN ToString(IF lines > 3 THEN lines - 2 ELSE 1) ELSE P.ht
+\* absent = the terminal width / the terminal height - 2; zero = the terminal dimension
+PadW(P, cols)  == IF P.w \in {"default", "zero"} THEN ToString(cols) ELSE P.w
+PadH(P, lines) == IF P.ht = "default" THEN ToString(IF lines > 3 THEN lines - 2 ELSE 1)
+                  ELSE IF P.ht = "zero" THEN ToString(lines) ELSE P.ht
 
 AlphaKindObs(P) == IF P.ak = "threshold" THEN "float"
                    ELSE IF P.ak \in {"termbg", "hex"} THEN "str" ELSE P.ak
@@ -82,7 +81,7 @@ JudgeObs(style, entry, obs, P, t, s) ==
       (IF obs[4] = "~" THEN Good
        ELSE IF obs[4] = "raise" THEN
          \* draw() documents one more limit than the grammar: pad_width <= terminal width
-         (IF P.w # "default" /\ Exceeds(P.wq, t[1]) THEN Good
+         (IF P.w \notin {"default", "zero"} /\ Exceeds(P.wq, t[1]) THEN Good
           ELSE [v |-> "draw-refuses-equivalent-parameters", exp |-> "output", got |-> obs[5]])
        ELSE IF obs[3] = obs[5] THEN Good
        ELSE [v |-> "format-differs-from-draw", exp |-> obs[5], got |-> obs[3]])
@@ -101,31 +100,33 @@ JudgeObs(style, entry, obs, P, t, s) ==
 \* ------------------------------------------------------------------------
 Tr == Traces[tid]
 
-Has(tr, si, ei) == \E g \in Range(tr.o) : si \in Range(g[1]) /\ \E e \in Range(g[2]) : ei \in Range(e[1])
-ObsFor(tr, si, ei) ==
-  LET g == CHOOSE g \in Range(tr.o) : si \in Range(g[1]) /\ \E e \in Range(g[2]) : ei \in Range(e[1])
-  IN (CHOOSE e \in Range(g[2]) : ei \in Range(e[1]))[2]
+\* tr.x[si][ei] = index into tr.u of the observation made for style si at entry point ei
+Obs(tr, si, ei) == tr.u[tr.x[si][ei]]
 
-JudgeStyle(tr, si) ==
-  LET P    == Parse(StyleIdx[si], tr.s)
-      J(ei) == JudgeObs(StyleIdx[si], ei, ObsFor(tr, si, ei), P, tr.t, tr.s)
-      bad  == {ei \in 1..4 : Has(tr, si, ei) /\ J(ei).v # "ok"}
-  IN IF bad = {} THEN [v |-> "ok", exp |-> "", got |-> "", style |-> "", entry |-> 0]
-     ELSE LET ei == CHOOSE x \in bad : \A y \in bad : x <= y
-          IN J(ei) @@ [style |-> StyleIdx[si], entry |-> ei]
+None == [v |-> "ok", exp |-> "", got |-> "", style |-> "", entry |-> 0]
 
+RECURSIVE FirstBadEntry(_, _, _, _)
+FirstBadEntry(tr, si, P, ei) ==
+  IF ei > 4 THEN None
+  ELSE LET r == JudgeObs(StyleIdx[si], ei, Obs(tr, si, ei), P, tr.t, tr.s)
+       IN IF r.v # "ok" THEN r @@ [style |-> StyleIdx[si], entry |-> ei]
+          ELSE FirstBadEntry(tr, si, P, ei + 1)
+
+RECURSIVE FirstBadStyle(_, _, _)
+FirstBadStyle(tr, P, si) ==
+  IF si > 3 THEN None
+  ELSE LET r == FirstBadEntry(tr, si, P[si], 1)
+       IN IF r.v # "ok" THEN r ELSE FirstBadStyle(tr, P, si + 1)
+
+\* first failing (style, entry); sentence = the styles for which the documented grammar
+\* accepts s
 JudgeTraceRec(tr) ==
-  LET J(si) == JudgeStyle(tr, si)
-      bad == {si \in 1..3 : J(si).v # "ok"}
-  IN IF bad = {} THEN J(1) ELSE J(CHOOSE x \in bad : \A y \in bad : x <= y)
-
-\* how many (style, entry) observations the trace carries, and whether the spec accepts
-Count(tr) == Cardinality({p \in (1..3) \X (1..4) : Has(tr, p[1], p[2])})
-Sentence(tr) == {si \in 1..3 : Parse(StyleIdx[si], tr.s).ok}
+  LET P == [si \in 1..3 |-> Parse(StyleIdx[si], tr.s)]
+  IN FirstBadStyle(tr, P, 1) @@ [sentence |-> {si \in 1..3 : P[si].ok}]
 
 Init == /\ tid \in 1..Len(Traces)
         /\ l = 0
-        /\ res = [v |-> "pending", exp |-> "", got |-> "", style |-> "", entry |-> 0]
+        /\ res = [v |-> "pending", exp |-> "", got |-> "", style |-> "", entry |-> 0, sentence |-> {}]
 
 Judge == /\ l = 0
          /\ l' = 1
@@ -138,5 +139,5 @@ Spec == Init /\ [][Next]_vars
 Done == l = 1
 Report == Done => PrintT(<<"VERDICT", ToJson([tid |-> tid, verdict |-> res.v, style |-> res.style,
                                               entry |-> res.entry, exp |-> res.exp, got |-> res.got,
-                                              n |-> Count(Tr), sentence |-> Sentence(Tr)])>>)
+                                              sentence |-> res.sentence])>>)
 =============================================================================
